@@ -152,6 +152,7 @@ def butter_rules(chk):
         expect(chk, "R-BP-LEN", cc + ".values", v, length="n", lin=[R], kind=K_ARRAY, tags_has=["filter:zero-phase"], loc=fi.loc())
         n_ = o.attrs.get("_npts")
         chk.ob("R-BP-LEN", cc + ".npts", "npts unchanged", n_ is not None and n_.sym == LinExpr("n"), derived="npts=%r" % (n_.sym if n_ else None,),
+               inconclusive=(n_ is None or n_.sym is None or any(a_.startswith("$") for a_ in LinExpr(n_.sym).atoms())),        # a length the engine could not express
                loc=fi.loc())
         fa = r.events("filter-apply")
         chk.ob("R-BP-ZEROPHASE", cc, "one forward-backward (zero-phase) filter application", len(fa) == 1 and fa[0].how.startswith("zero-phase"),
@@ -252,6 +253,17 @@ def poly_summary(chk, fi, c, rename):
     calls = {ast.unparse(n.func).split(".")[-1]: n for n in ast.walk(fi.node) if isinstance(n, ast.Call)}
     ls = calls.get("linspace")
     out["abscissa"] = tuple(norm.arg(a) for a in ls.args) if ls is not None else None
+    if out["abscissa"]:
+        # a local bound once to the number of samples (npts = len(values)) is that number
+        once = {}
+        for m_ in ast.walk(fi.node):
+            if isinstance(m_, ast.Assign) and len(m_.targets) == 1 and isinstance(m_.targets[0], ast.Name):
+                once.setdefault(m_.targets[0].id, []).append(m_.value)
+        out["abscissa"] = tuple(norm.arg(once[x][0]) if (x in once and len(once[x]) == 1 and norm.arg(once[x][0]) in
+                                                         ("len(values)", "self.npts", "len(self.values)", "values.shape[0]", "values.size")) else x
+                                for x in out["abscissa"])
+        out["abscissa"] = tuple({"self.npts": "len(values)", "values.shape[0]": "len(values)", "values.size": "len(values)",
+                                 "len(self.values)": "len(values)"}.get(x, x) for x in out["abscissa"])
     pf = calls.get("polyfit")
     out["fit"] = tuple(norm.arg(a) for a in pf.args) if pf is not None else None
     loops = [n for n in ast.walk(fi.node) if isinstance(n, ast.For)]
@@ -310,7 +322,19 @@ def poly_summary(chk, fi, c, rename):
         out["result"] = norm.poly(rets[0].value).canon()
     else:
         rv = [n for n in ast.walk(fi.node) if isinstance(n, ast.Call) and isinstance(n.func, ast.Attribute) and n.func.attr == "reset_values"]
+        if not rv:
+            # the new values handed to another method of the object (a private storing helper): the one statement-level self.<m>(<expr>)
+            rv = [n.value for n in fi.node.body if isinstance(n, ast.Expr) and isinstance(n.value, ast.Call) and isinstance(n.value.func, ast.Attribute) and
+                  isinstance(n.value.func.value, ast.Name) and n.value.func.value.id == "self" and len(n.value.args) == 1 and not n.value.keywords and
+                  n.value.func.attr != "clear_cache"]
+            rv = rv if len(rv) == 1 else []
         out["result"] = norm.poly(rv[0].args[0]).canon() if rv else None
+    if out.get("result"):
+        # values minus ONE correction term, whatever the correction is called (a local, the value of a helper call)
+        import re as _re
+        m_ = _re.match(r"^(?:-1\*([A-Za-z_]\w*) \+ 1\*values|1\*values \+ -1\*([A-Za-z_]\w*))$", out["result"])
+        if m_ and (m_.group(1) or m_.group(2)) != "values":
+            out["result"] = "1*values + -1*y_cor"
     return out
 
 
@@ -344,15 +368,20 @@ def poly_rules(chk):
             d["abscissa"] = tuple(x.replace("self.npts", "len(values)") for x in d["abscissa"])
         return d
     sa_, sb_ = canon(sa_), canon(sb_)
-    chk.ob("R-POLY-SIB", "Signal.remove_poly~generic.remove_poly", "equal summaries (abscissa, fit, range, term, result)", (sa_ == sb_ and
-           all(v is not None for v in sa_.values())) or deleg, derived="the method delegates to the function" if deleg else "%s vs %s" % (sa_, sb_),
-           loc=a.loc(), inconclusive=("term" not in sa_ or "term" not in sb_))
+    # field by field: a field located in both and different refutes; a field not located in one of them is inconclusive
+    keys_ = sorted(set(sa_) | set(sb_))
+    differ_ = [k for k in keys_ if sa_.get(k) is not None and sb_.get(k) is not None and sa_.get(k) != sb_.get(k)]
+    missing_ = [k for k in keys_ if sa_.get(k) is None or sb_.get(k) is None]
+    chk.ob("R-POLY-SIB", "Signal.remove_poly~generic.remove_poly", "equal summaries (abscissa, fit, range, term, result)",
+           (not differ_ and not missing_) or deleg, derived="the method delegates to the function" if deleg else
+           ("fields that differ: %s; not located: %s; %s vs %s" % (differ_, missing_, sa_, sb_)),
+           loc=a.loc(), inconclusive=(not differ_ and bool(missing_)) or ("term" not in sa_ or "term" not in sb_))
     for nm, s, fi in (("Signal.remove_poly", sa_, a), ("generic.remove_poly", sb_, b)):
         if deleg and fi is a:
             continue
         c = "%s:%s" % (fi.module.relpath, nm)
         chk.ob("R-POLY-SIB", c + "{abscissa}", "x = linspace(0, 1, n)", s.get("abscissa") == ("0", "1", "len(values)"),
-               derived="%s" % (s.get("abscissa"),), loc=fi.loc())
+               derived="%s" % (s.get("abscissa"),), loc=fi.loc(), inconclusive=s.get("abscissa") is None)
         chk.ob("R-POLY-SIB", c + "{fit}", "polyfit(x, values, poly_fit)", s.get("fit") == ("x", "values", "poly_fit"), derived="%s" % (s.get("fit"),),
                loc=fi.loc())
         chk.ob("R-POLY-SIB", c + "{range}", "all coefficients of the fit are used", s.get("range") == "all coefficients of the fit", derived="%s" % s.get("range"),
@@ -362,7 +391,7 @@ def poly_rules(chk):
                ("1*(1*x)**(-1*k + 1*poly_fit)*c_k", "1*(1*x)**(1*poly_fit + -1*k)*c_k"), derived="%s" % s.get("term"), loc=fi.loc(),
                inconclusive="term" not in s)
         chk.ob("R-POLY-SIB", c + "{result}", "result = values - correction", s.get("result") == "1*values + -1*y_cor", derived="%s" % s.get("result"),
-               loc=fi.loc())
+               loc=fi.loc(), inconclusive=s.get("result") is None)
         if "start" in s:
             chk.ob("R-POLY-SIB", c + "{start}", "the correction is summed up from an exact zero array (0 * x, zeros)", s["start"] == "zero",
                    derived="%s" % s["start"], loc=fi.loc())
@@ -503,10 +532,13 @@ def window_table(fi, rename=None):
     top = [x for x in lp.body if isinstance(x, ast.If)][0]
     after = [c for c in means if not any(c is y for y in ast.walk(top))] if chunk is None else []
 
-    def bound(env, e):
+    def bound(env, e, upper=False):
         if e is None or (isinstance(e, ast.Constant) and e.value is None):
             return None
         p = env.poly(e)
+        # an explicit 0 as lower bound, an explicit len(X) as upper bound: the open end
+        if (not upper and p == Poly.const(0)) or (upper and p.canon() in ("1*len(X)", "1*X.shape[0]", "1*X.size")):
+            return None
         return None if p == Poly.atom("None") else p
 
     def branch(cond, body):
@@ -519,7 +551,7 @@ def window_table(fi, rename=None):
         for c in in_body + after:
             sl = c.args[0].slice
             if isinstance(sl, ast.Slice):
-                reads.append((bound(env, sl.lower), bound(env, sl.upper)))
+                reads.append((bound(env, sl.lower), bound(env, sl.upper, upper=True)))
         rows.append((cond, tuple(reads)))
     node = top
     while True:
